@@ -1746,6 +1746,8 @@ func (h *ResponseHeader) setSpecialHeader(key, value []byte) bool {
 			if contentLength, err := ParseContentLength(value); err == nil {
 				h.contentLength = contentLength
 				h.contentLengthBytes = append(h.contentLengthBytes[:0], value...)
+				// a length replaces the chunked framing an earlier SetContentLength(-1) selected
+				h.h = delAllArgsBytes(h.h, bytestr.StrTransferEncoding)
 			}
 			return true
 		} else if utils.CaseInsensitiveCompare(bytestr.StrContentEncoding, key) {
@@ -1806,6 +1808,8 @@ func (h *RequestHeader) setSpecialHeader(key, value []byte) bool {
 			if contentLength, err := ParseContentLength(value); err == nil {
 				h.contentLength = contentLength
 				h.contentLengthBytes = append(h.contentLengthBytes[:0], value...)
+				// a length replaces the chunked framing an earlier SetContentLength(-1) selected
+				h.h = delAllArgsBytes(h.h, bytestr.StrTransferEncoding)
 			}
 			return true
 		} else if utils.CaseInsensitiveCompare(bytestr.StrConnection, key) {
